@@ -456,6 +456,10 @@ def run(ctx):
     for _ in range(rounds):
         kind, d, model = start_state(real, rng)
         ops = [["start", kind, list(model)]]
+        bystander = real.Deb822()          # another mapping alive at the same time: nothing done to `d` may show up here
+        bystander["Zed"] = "1"
+        bystander["a"] = "2"
+        bystander["XY"] = "3"
         if not same(d, model):
             t.failed("initial state differs from the model", operations=ops, keys=list(d.keys()))
             break
@@ -559,6 +563,10 @@ def run(ctx):
                          items=[list(x) for x in d.items()], model=[list(x) for x in model])
                 break
         if t.fail:
+            break
+        if not t.fail and [(k_, bystander[k_]) for k_ in bystander.keys()] != [("Zed", "1"), ("a", "2"), ("XY", "3")]:
+            t.failed("operations on one mapping changed another mapping (shared state)", operations=ops,
+                     bystander=[(k_, bystander[k_]) for k_ in bystander.keys()])
             break
         t.case(key=str(ops), sample=ops if len(ops) > 4 else None)
     t.done()
